@@ -9,7 +9,12 @@ RULE = ('Hypothesis draws (filesystem configuration out of %d feature/block-size
 CFG_NAMES = [c['name'] for c in fsgen.CONFIGS]
 
 def strategy(env):
-    return st.fixed_dictionaries(dict(cfg=st.sampled_from(CFG_NAMES), recipe=st.integers(0, len(hyp.RECIPES) - 1), muts=st.lists(hyp.mutation, min_size=1, max_size=int(os.environ.get('VERIF_C01_MAXMUT', '6')))))
+    # two thirds: 1-6 structure-aware mutations; one third: one or two directed mutations (a block-number / count / size field of one object at a boundary value, or an unreachable / multiply-claimed
+    # structure, checksums fixed) - single damage whose repair must converge on its own, not hidden among the side effects of other damage. The quota configuration is drawn twice as often
+    # (its repair has an extra consumer: the quota files written at the end of the run).
+    from checks import c02
+    general = st.lists(hyp.mutation, min_size=1, max_size=int(os.environ.get('VERIF_C01_MAXMUT', '6')))
+    return st.fixed_dictionaries(dict(cfg=st.sampled_from(CFG_NAMES + [c for c in CFG_NAMES if 'quota' in c]), recipe=st.integers(0, len(hyp.RECIPES) - 1), muts=st.one_of(general, general, st.lists(c02.directed, min_size=1, max_size=2))))
 
 def envinit(widx):
     return hyp.img_env(widx, variants=('asan',))
